@@ -282,7 +282,17 @@ func checkC16(c *Ctx) {
 				}
 				files = imp
 			}
-			res := runProgram(files, "main", "main.Main", 0, true, 400000)
+			arg := "main"
+			if li%2 == 0 && len(files) == 1 {
+				// a layout with all declarations in one file is also addressed by that file's name
+				for name := range files {
+					if li%4 == 2 {
+						arg = name
+						entry = "file " + name
+					}
+				}
+			}
+			res := runProgram(files, arg, "main.Main", 0, true, 400000)
 			c.Evaluations++
 			bad := ""
 			switch {
